@@ -1100,6 +1100,116 @@ fn gen_own_rekey(run: &mut Run, seed: u64) {
     run.add("ownrekey", "custom cipher with its own rekey".into(), sc);
 }
 
+/// A hostile peer whose DH contributes nothing: its public keys are all-zero and every DH it computes is all-zero
+/// (what X25519 yields for a low-order point). snow accepts such keys (the Noise specification leaves rejecting them
+/// optional), so the victim derives the same all-zero secrets and the hostile peer's messages authenticate.
+struct ZeroDh {
+    privkey: [u8; 32],
+    pubkey: [u8; 32],
+}
+impl snow::types::Dh for ZeroDh {
+    fn name(&self) -> &'static str {
+        "25519"
+    }
+    fn pub_len(&self) -> usize {
+        32
+    }
+    fn priv_len(&self) -> usize {
+        32
+    }
+    fn set(&mut self, privkey: &[u8]) {
+        self.privkey[..privkey.len().min(32)].copy_from_slice(&privkey[..privkey.len().min(32)]);
+    }
+    fn generate(&mut self, rng: &mut dyn snow::types::Random) {
+        rng.fill_bytes(&mut self.privkey);
+    }
+    fn pubkey(&self) -> &[u8] {
+        &self.pubkey
+    }
+    fn privkey(&self) -> &[u8] {
+        &self.privkey
+    }
+    fn dh(&self, _pubkey: &[u8], out: &mut [u8]) -> Result<(), snow::Error> {
+        out[..32].fill(0);
+        Ok(())
+    }
+}
+struct ZeroDhResolver;
+impl snow::resolvers::CryptoResolver for ZeroDhResolver {
+    fn resolve_rng(&self) -> Option<Box<dyn snow::types::Random>> {
+        snow::resolvers::DefaultResolver.resolve_rng()
+    }
+    fn resolve_dh(&self, _c: &snow::params::DHChoice) -> Option<Box<dyn snow::types::Dh>> {
+        Some(Box::new(ZeroDh { privkey: [0; 32], pubkey: [0; 32] }))
+    }
+    fn resolve_hash(&self, c: &snow::params::HashChoice) -> Option<Box<dyn snow::types::Hash>> {
+        snow::resolvers::DefaultResolver.resolve_hash(c)
+    }
+    fn resolve_cipher(&self, c: &snow::params::CipherChoice) -> Option<Box<dyn snow::types::Cipher>> {
+        snow::resolvers::DefaultResolver.resolve_cipher(c)
+    }
+}
+
+/// C19 (implementation only): messages of a peer with non-contributory DH keys. Whatever the victim's read returns,
+/// an `Err` must not leave the decrypted payload in the caller's buffer (seed C19-K: a verdict given after the payload
+/// was decrypted), and nothing may panic.
+fn gen_noncontributory(run: &mut Run, seed: u64) {
+    let mut sc = Sc::new();
+    sc.ex.comment("a peer with all-zero DH keys (implementation only)");
+    let mut r = Rng64(seed ^ 0x7a64);
+    for (name, hostile_initiator) in [
+        ("Noise_NK_25519_ChaChaPoly_SHA256", true),
+        ("Noise_NN_25519_AESGCM_BLAKE2s", false),
+        ("Noise_NN_25519_ChaChaPoly_SHA512", true),
+        ("Noise_XX_25519_ChaChaPoly_BLAKE2b", false),
+    ] {
+        let payload = r.bytes(40);
+        let res = std::panic::catch_unwind(std::panic::AssertUnwindSafe(|| -> Option<String> {
+            let params: snow::params::NoiseParams = name.parse().unwrap();
+            let vs = [7u8; 32];
+            let mut hb = snow::Builder::with_resolver(params.clone(), Box::new(ZeroDhResolver));
+            let mut vb = snow::Builder::new(params.clone());
+            let zero_pub = [0u8; 32];
+            let hs_static = [9u8; 32];
+            if name.contains("_NK_") {
+                // the victim is the responder with a static key; the hostile initiator "knows" it (any value: its DH ignores it)
+                vb = vb.local_private_key(&vs).unwrap();
+                hb = hb.remote_public_key(&zero_pub).unwrap();
+            }
+            if name.contains("_XX_") {
+                vb = vb.local_private_key(&vs).unwrap();
+                hb = hb.local_private_key(&hs_static).unwrap();
+            }
+            let (mut hostile, mut victim) = if hostile_initiator { (hb.build_initiator().ok()?, vb.build_responder().ok()?) } else { (hb.build_responder().ok()?, vb.build_initiator().ok()?) };
+            let (mut a, mut b) = (vec![0u8; 300], vec![0xA5u8; 300]);
+            if !hostile_initiator {
+                // the victim speaks first
+                let l = victim.write_message(&[], &mut a).ok()?;
+                hostile.read_message(&a[..l], &mut b).ok()?;
+                b.fill(0xA5);
+            }
+            let l = hostile.write_message(&payload, &mut a).ok()?;
+            match victim.read_message(&a[..l], &mut b) {
+                Ok(_) => None,
+                Err(e) => {
+                    if b.windows(payload.len()).any(|w| w == payload.as_slice()) {
+                        Some(format!("{name}: a message of a peer with all-zero DH keys was refused with {e:?} but the decrypted payload is in the caller's buffer"))
+                    } else {
+                        None
+                    }
+                },
+            }
+        }));
+        match res {
+            Ok(Some(w)) => sc.viol("C19", w),
+            Ok(None) => {},
+            Err(_) => sc.viol("C10", format!("{name}: panic while reading a message of a peer with all-zero DH keys")),
+        }
+        sc.count("noncontributory.sessions");
+    }
+    run.add("noncontrib", "peer with all-zero DH keys".into(), sc);
+}
+
 /// C04 / C06 (implementation only: OS randomness): many sessions made one after the other on one thread with snow's own
 /// default resolver and its own random source. Every ephemeral is fresh (no two sessions put the same `e` on the wire),
 /// and a transport message of one session is rejected by every other session.
@@ -1233,6 +1343,7 @@ fn run_prop(prop: &str, thorough: bool, seed: u64) -> Run {
             gen_api(&mut run, seed, thorough);
         },
         "C19" => {
+            gen_noncontributory(&mut run, seed);
             gen_hs(&mut run, prop, seed, thorough);
             gen_transport(&mut run, prop, seed, thorough);
             prim::gen_prim(&mut run, seed, thorough, true);
